@@ -32,6 +32,7 @@ type verifC05Case struct {
 	CL     bool   `json:"content_length"` // the backend declares Content-Length and still writes the body in pieces
 	Proto  string `json:"proto"`          // protocol version on the request line of the forwarded request
 	Many   bool   `json:"many,omitempty"` // one of the responses that are all held open at the same time
+	Status int    `json:"status,omitempty"` // status of the backend's response (0 = 200)
 }
 
 const verifC05Many = 40
@@ -48,6 +49,7 @@ type verifC05Obs struct {
 // chunk i) behind the real handler chain and NewResponseForwarder, uploading over real HTTP
 // to a proxy endpoint that reads the upload incrementally.
 func TestVerifC05(t *testing.T) {
+	defer func() { *shimPath, *shimWebsockets, *forceHTTP2 = "", false, false }()
 	out := verifOpenOut(t)
 	defer out.close()
 	rng := &verifRng{s: verifSeed()}
@@ -80,7 +82,11 @@ func TestVerifC05(t *testing.T) {
 			}
 			w.Header().Set("Content-Length", fmt.Sprint(total))
 		}
-		w.WriteHeader(200)
+		if c.Status != 0 {
+			w.WriteHeader(c.Status)
+		} else {
+			w.WriteHeader(200)
+		}
 		fl := w.(http.Flusher)
 		sent := 0
 		for i, sz := range c.Chunks {
@@ -235,6 +241,7 @@ func TestVerifC05(t *testing.T) {
 		if config == "h2c" {
 			*host = strings.TrimPrefix(backendH2.URL, "http://")
 		}
+		*shimPath, *shimWebsockets, *forceHTTP2 = shimP, inject, config == "h2c" // the flags, as main() has them
 		hp, err := hostProxy(context.Background(), *host, shimP, inject, config == "h2c")
 		if err != nil {
 			t.Fatal(err)
@@ -261,6 +268,10 @@ func TestVerifC05(t *testing.T) {
 			}
 			if i == 0 {
 				c.Chunks = []int{1, 1, 1, 1, 1}
+			}
+			if config == "plain" || config == "h2c" {
+				// streamed responses of every status class (an event stream may well be an error page that keeps growing)
+				c.Status = []int{200, 200, 200, 500, 206, 503, 404}[i%7]
 			}
 			if config == "plain" && i == 2 {
 				// a response larger than any plausible cap on an upload (34 MiB in 1 MiB chunks)
